@@ -171,10 +171,10 @@ theorem seqMap_single (inputs : List α) (f : α → Outcome β) (np : Nat) :
     seqMap ⟨inputs, [f], np⟩ = inputs.map (fun x => (f x).toOption) := by
   apply List.ext_getElem?
   intro i
-  simp only [seqMap, Cfg.nTasks, Cfg.run, Cfg.call, List.getElem?_map, List.getElem?_range]
+  simp only [seqMap, Cfg.nTasks, Cfg.run, Cfg.call, List.getElem?_map]
   by_cases hi : i < inputs.length
   · simp [hi]
-  · simp [hi, List.getElem?_eq_none (Nat.le_of_not_lt hi)]
+  · simp [hi]
 
 /-- **No deadlock.**  Until `execute` has joined its workers some transition is enabled
     (given `n_processes ≥ 1`). -/
@@ -223,6 +223,150 @@ theorem parallel_eq_sequential (c : Cfg α β) (hp : 1 ≤ c.nProcs)
     have := (raised_iff_stop c s h).mpr hst
     rw [hr] at this
     cases this
+
+/-! ### `DiscParallelLinearization`: the returned Jacobians are positional -/
+
+/-- The list of Jacobians has one slot per input, slot `i` holds the Jacobian of task `i`
+    (`None` exactly where the task failed): a failed discipline does not shift the others. -/
+theorem linearization_positional {γ : Type} (jacOf : β → γ) (ordered : List (Option β)) :
+    (linearizationReturn jacOf ordered).length = ordered.length ∧
+    ∀ i : Nat, (linearizationReturn jacOf ordered)[i]? = (ordered[i]?).map (fun (o : Option β) => o.map jacOf) := by
+  simp [linearizationReturn]
+
+/-- Composition with the pool: for every schedule, the Jacobian list of a complete parallel
+    linearization is the sequential one. -/
+theorem parallel_linearization_eq_sequential {γ : Type} (jacOf : β → γ) (c : Cfg α β) (s : State β)
+    (h : Reachable c s) (hf : s.final = true) (outs : List (Option β))
+    (hr : s.result = .returned outs) :
+    linearizationReturn jacOf outs = (seqMap c).map (fun o => o.map jacOf) := by
+  rw [positional_results c s h hf outs hr, linearizationReturn]
+
+/-! ### DOE layer -/
+
+section DOE
+
+variable {κ ν : Type} [DecidableEq κ]
+
+/-- Both the parallel DOE (pre-seeding, store callbacks in *any* completion order, clean-up)
+    and the sequential DOE end with the canonical database: the successful samples in sample
+    order (first occurrence), each with its own values. -/
+theorem doe_canonical (eval : κ → Option ν) (samples : List κ) (cbs : List Nat)
+    (hcover : ∀ i (h : i < samples.length), (eval samples[i]).isSome → i ∈ cbs) :
+    doeParallel eval samples cbs = canon eval (addKeys [] samples) ∧
+    doeSequential eval [] samples = canon eval (addKeys [] samples) := by
+  constructor
+  · unfold doeParallel
+    have hpre : doePreseed ([] : Db κ ν) samples = part eval [] (addKeys [] samples) := by
+      have h0 : (blank [] : Db κ ν) = [] := rfl
+      have := doePreseed_blank (ν := ν) [] samples
+      rw [h0] at this
+      rw [this, blank_eq_part eval]
+    have hn : (addKeys ([] : List κ) samples).Nodup := nodup_addKeys List.nodup_nil samples
+    have hs : ∀ x ∈ samples, x ∈ addKeys [] samples := fun x hx => mem_addKeys.mpr (Or.inr hx)
+    obtain ⟨D', h1, h2⟩ := doeCallbacks_part eval samples _ hn hs [] cbs
+    rw [hpre, h1]
+    apply removeEmpty_part
+    intro k hk hsome
+    have hk' : k ∈ samples := by
+      rcases mem_addKeys.mp hk with h | h
+      · simp at h
+      · exact h
+    obtain ⟨i, hi, rfl⟩ := List.getElem_of_mem hk'
+    exact (h2 _).mpr (Or.inr ⟨i, hcover i hi hsome, by simp [hi]⟩)
+  · have := doeSequential_canon eval [] List.nodup_nil samples
+    simpa [canon] using this
+
+/-- **Parallel DOE = sequential DOE** for every completion order `cbs` that contains every
+    successful sample index (failing samples included, repeated samples included): same points,
+    same order, same values. -/
+theorem parallel_doe_eq_sequential (eval : κ → Option ν) (samples : List κ) (cbs : List Nat)
+    (hcover : ∀ i (h : i < samples.length), (eval samples[i]).isSome → i ∈ cbs) :
+    doeParallel eval samples cbs = doeSequential eval [] samples := by
+  obtain ⟨h1, h2⟩ := doe_canonical eval samples cbs hcover
+  rw [h1, h2]
+
+/-- The task callable of a DOE: evaluate the sample, a raising evaluation is a swallowed failure. -/
+def doeCallable (eval : κ → Option ν) : κ → Outcome ν :=
+  fun x => match eval x with
+    | some v => .ok v
+    | none => .fail
+
+/-- **End to end, for every schedule of the worker pool and every worker count**: the database
+    built from the callbacks of any complete parallel execution is the sequential database. -/
+theorem parallel_doe_eq_sequential_any_schedule (eval : κ → Option ν) (samples : List κ) (np : Nat)
+    (s : State ν) (h : Reachable ⟨samples, [doeCallable eval], np⟩ s) (hf : s.final = true) :
+    doeParallel eval samples (s.cbLog.map Prod.fst) = doeSequential eval [] samples := by
+  let c : Cfg κ ν := ⟨samples, [doeCallable eval], np⟩
+  have hrun : ∀ i (hi : i < samples.length), c.run i = doeCallable eval samples[i] := by
+    intro i hi
+    simp [c, Cfg.run, Cfg.call, hi]
+  have hno : ∀ i, i < c.nTasks → c.run i ≠ .failStop := by
+    intro i hi
+    rw [hrun i hi]
+    unfold doeCallable
+    cases eval samples[i] <;> simp
+  have hst : s.stop = false := by
+    cases hs : s.stop with
+    | false => rfl
+    | true =>
+      have hr := (raised_iff_stop c s h).mpr hs
+      obtain ⟨i, hi, hrun'⟩ := raised_only_by_stop_task c s h hr
+      exact absurd hrun' (hno i hi)
+  have hperm := callbacks_exactly_once c s h hf hst
+  apply parallel_doe_eq_sequential
+  intro i hi hsome
+  obtain ⟨v, hv⟩ := Option.isSome_iff_exists.mp hsome
+  have hmem : (i, v) ∈ seqCallbacks c := by
+    simp only [seqCallbacks, List.mem_filterMap, List.mem_range]
+    refine ⟨i, hi, ?_⟩
+    rw [hrun i hi]
+    simp [doeCallable, hv, Outcome.toOption]
+  have := hperm.mem_iff.mpr hmem
+  exact List.mem_map.mpr ⟨(i, v), this, rfl⟩
+
+example : doeParallel (fun x : Nat => if x = 2 then none else some (10 * x)) [1, 2, 3, 1] [3, 2, 0]
+    = [(1, some 10), (3, some 30)] := by decide
+
+example : doeSequential (fun x : Nat => if x = 2 then none else some (10 * x)) [] [1, 2, 3, 1]
+    = [(1, some 10), (3, some 30)] := by decide
+
+/-! ### Shared full cache -/
+
+/-- **Look-ups are transparent**: after any sequence of atomic `cache_outputs(x, f x)` calls on
+    an empty cache, looking up `y` gives `f y` exactly when `y` was written. -/
+theorem cache_transparent (f : κ → ν) (xs : List κ) (y : κ) :
+    cacheLookup (cacheWrites f [] xs) y = if y ∈ xs then some (f y) else none := by
+  rw [cacheLookup_cacheWrites]
+  simp [cacheLookup_nil]
+
+/-- **Linearisable**: any two interleavings (permutations) of the same atomic writes, starting
+    from the same cache, answer every look-up identically, and store the same set of inputs
+    once each. -/
+theorem shared_cache_linearisable (f : κ → ν) (cch : Cache κ ν) (xs ys : List κ) (hp : xs.Perm ys) :
+    (∀ y, cacheLookup (cacheWrites f cch xs) y = cacheLookup (cacheWrites f cch ys) y) ∧
+    (∀ y, y ∈ (cacheWrites f cch xs).map Prod.fst ↔ y ∈ (cacheWrites f cch ys).map Prod.fst) := by
+  constructor
+  · intro y
+    rw [cacheLookup_cacheWrites, cacheLookup_cacheWrites]
+    cases cacheLookup cch y with
+    | some w => rfl
+    | none => simp [hp.mem_iff]
+  · intro y
+    rw [keys_cacheWrites, keys_cacheWrites, mem_addKeys, mem_addKeys, hp.mem_iff]
+
+/-- One entry per distinct input. -/
+theorem cache_entries_nodup (f : κ → ν) (xs : List κ) :
+    ((cacheWrites f [] xs).map Prod.fst).Nodup ∧
+    ∀ y, y ∈ (cacheWrites f [] xs).map Prod.fst ↔ y ∈ xs := by
+  rw [keys_cacheWrites]
+  refine ⟨nodup_addKeys List.nodup_nil xs, ?_⟩
+  intro y
+  rw [mem_addKeys]
+  simp
+
+example : cacheWrites (fun x : Nat => 2 * x) [] [3, 1, 3, 2] = [(3, 6), (1, 2), (2, 4)] := by decide
+
+end DOE
 
 /-! ### Non-vacuity: a concrete out-of-order schedule with a failing task -/
 
